@@ -89,6 +89,37 @@ def drivers(tier, seed):
                             ds.append({"id": "open:%d" % n, "flavor": flavor, "base": base, "history": hist,
                                        "mut": [{"k": "set", "at": ident + k, "bytes": [v]}], "attempts": [a]})
                             n += 1
+    # the arena mapped at a file offset (page aligned and not): the same file classes, seen from the offset; truncations may
+    # cut into the foreign bytes in front of the arena
+    for flavor in ["sync", "unsync"]:
+        for off in [4096, 104]:   # (an offset that is not a multiple of 8 misaligns the header: see DESIGN section 12)
+            res = 0
+            base = {"cap": 160, "reserved": res, "kind": "opt", "minseg": 8, "magic": 5, "offset": off}
+            prefix = 32
+            muts = [[]]
+            for k in range(8):
+                for v in [0, 3, 97, 255]:
+                    muts.append([{"k": "set", "at": k, "bytes": [v]}])
+            for ln in sorted({-off, -off + 1, -1, 0, 1, 8, prefix - 1, prefix, prefix + 1, 100, 159}):
+                muts.append([{"k": "truncate", "len": ln}])
+            muts.append([{"k": "fill", "v": 255}])
+            muts.append([{"k": "replace", "bytes": [rng.randrange(256) for _ in range(200)]}])
+            muts.append([{"k": "remove"}])
+            for mu in muts:
+                atts = []
+                for variant in ["map_mut", "map_copy", "map", "map_copy_ro"]:
+                    for cap in [0, 160, 300]:
+                        atts.append({"variant": variant, "cap": cap, "reserved": res, "kind": "opt", "magic": 5, "minseg": 8,
+                                     "create": False, "create_new": False, "offset": off})
+                atts.append({"variant": "map_mut", "cap": 0, "reserved": res, "kind": "pes", "magic": 5, "minseg": 8, "create": False, "create_new": False, "offset": off})
+                atts.append({"variant": "map_mut", "cap": 300, "reserved": res, "kind": "opt", "magic": 6, "minseg": 8, "create": True, "create_new": False, "offset": off})
+                atts.append({"variant": "map_mut", "cap": 160, "reserved": res, "kind": "opt", "magic": 5, "minseg": 8, "create": False, "create_new": True, "offset": off})
+                for a in atts:
+                    ds.append({"id": "open:%d" % n, "flavor": flavor, "base": base, "history": hist, "mut": mu, "attempts": [a]})
+                    n += 1
+    for d in ds:
+        for a in d["attempts"]:
+            a.setdefault("offset", 0)
     return ds
 
 
